@@ -24,6 +24,32 @@ PROPS = {
         "level_text": "Thousands (quick) to hundreds of thousands (thorough) of distinct Prio3 instantiations are executed end to end on batches of valid measurements; each report must be accepted by all aggregators, per-report output shares must sum to the plain contribution, and the unsharded aggregate must equal the plain aggregate mod p; encode_measurement is compared with a spec-level reference encoding.",
         "level_note": "Held on the sampled configuration points only. Trusted: harness reference models (zoo.rs).",
     },
+    "C02": {
+        "level": "fault_enumeration",
+        "rule": "per sampled Prio3 configuration: (a) every family of INVALID encoded inputs (non-bits at first/last/chunk-boundary/padding-adjacent positions, wrong weight, "
+                "inconsistent claimed weight/norm, norm above bound, affine-only near misses) shared by a harness re-implementation of sharing around the public Flp::prove "
+                "(self-checked byte-for-byte against shard_with_random on valid inputs); (b) single and double alterations of wire messages after honest sharding "
+                "(leader measurement/proof elements, seeds, blinds, joint-rand parts, verifier-share elements, verifier message, element swaps, share substitution, truncation, "
+                "trailing bytes) and wrong verifier-share counts; distinct = distinct configurations with an accepted honest control",
+        "assumptions": COMMON_ASSUMPTIONS + ["an unexpected acceptance is reported only after the same artefact is accepted under 3 further independent verification keys (soundness flukes are counted, not reported)",
+                                             "a tamper operation that leaves the bytes unchanged is not a fault"],
+        "min_counters": {"forge_selfcheck_ok": 100, "honest_controls_accepted": 100, "invalid_input_rejected": 500, "tampered_rejected": 2000, "wrong_share_count_rejected": 100},
+        "technique": "fault injection at a wire interposer plus forged reports over invalid inputs, with an acceptance monitor (all aggregators Finish) confirmed under fresh keys",
+        "level_text": "Tens of thousands (quick) to millions (thorough) of adversarial reports over all seven types, 2-7 aggregators and 1-3 proofs are executed against the real aggregator code; every one must be refused at some stage (decode, verify_init, decide, joint-randomness check, count check); rejections are tallied per stage and per tamper class.",
+        "level_note": "Sampled adversary: a weakened check is seen only if the workload contains a forgery it lets through. Trusted: harness validity predicates (zoo.rs) and the forge (self-checked).",
+    },
+    "C05": {
+        "level": "exploration",
+        "rule": "per sampled circuit configuration (7 circuits x 2 fields x bound/length/chunk lattice): completeness under uniform/zero/one/repeated/root-of-unity joint+prove randomness "
+                "and uniform/zero/repeated query randomness on canonical and non-canonical valid inputs; soundness on invalid families under uniform randomness (3/3 confirmation); "
+                "linearity over 1..254 random or degenerate additive shares; exact proof/verifier lengths; every argument shortened/lengthened/emptied must give Err; "
+                "every (or 52 sampled) wire-domain root(s) of unity as gadget query randomness must be refused and odd powers of the doubled-domain root accepted; distinct = distinct circuit parameter points",
+        "assumptions": COMMON_ASSUMPTIONS + ["soundness is asserted only under uniformly random joint/query randomness (range checks are vacuous by design under degenerate joint randomness)"],
+        "min_counters": {"complete_accepts": 1000, "linearity_checks": 1000, "invalid_rejected": 1000, "wrong_length_refused": 1000, "root_query_refused": 1000, "next_domain_root_accepted": 200},
+        "technique": "runtime monitoring of Flp::prove/query/decide against harness validity predicates, with metamorphic share-linearity and argument-length fault injection",
+        "level_text": "Each sampled circuit instance is driven through prove/query/decide on valid and invalid inputs with adversarial randomness shapes, additive sharings into up to 254 shares, all wrong-length argument variants and all wire-domain roots of unity as query randomness.",
+        "level_note": "Sampled parameter points; soundness checked operationally (3 independent draws).",
+    },
     "C09": {
         "level": "exploration",
         "rule": "Part A: every operand pair of every listed (word size, prime) instantiation of the generic Montgomery "
@@ -38,6 +64,29 @@ PROPS = {
         "technique": "runtime differential monitoring against a big-integer reference model; exhaustive operand enumeration of the same generic code at 8/16-bit word sizes (hook H1); debug_assert reducedness monitor",
         "level_text": "Every operand pair of the generic Montgomery add/sub/neg/mul/inv/pow code is executed and compared with integer arithmetic at 8- and 16-bit word sizes (53 u8 primes, several u16 primes, single- and split-word variants); the deployed 32/64/128/255-bit fields are executed on a limb-boundary lattice cross product and random pairs and compared with BigUint; conversions, equality/hash/encoding consistency, conditional select/negate and root orders are checked on the same runs.",
         "level_note": "Trusted: BigUint/u128 arithmetic, the const-fn parameter derivation of the scaled-down instantiations (self-checked by residue(montgomery(a)) == a). Deployed-prime coverage is a lattice plus sampling, not exhaustive.",
+    },
+    "C17": {
+        "level": "exploration",
+        "rule": "pairs of distinct measurements (incl. extremes) sharded with identical scripted randomness, nonce and context on sampled Prio3 configurations "
+                "(all types, 2..254 aggregators, 1-2 proofs, both XOFs) and Poplar1 instances (bits 1..1024, inputs differing in first/last/all bits): byte comparison of every helper share, "
+                "helper joint-rand parts, leader blind, and element-wise leader-share difference vs difference of the reference encodings; distinct = configurations x randomness",
+        "assumptions": COMMON_ASSUMPTIONS + ["reference encoding from zoo.rs (cross-checked against encode_measurement in C01)"],
+        "min_counters": {"helper_share_bytes_compared": 100000, "leader_elements_checked": 100000, "poplar1_share_bytes_compared": 100000, "poplar1_pairs_with_differing_public_share": 100},
+        "technique": "metamorphic byte-level comparison of shard_with_random outputs across measurements with fixed randomness",
+        "level_text": "For every sampled configuration all ordered pairs of a measurement set are sharded with the same tape; any byte of a helper share / helper joint-rand part / Poplar1 input share that differs, or a leader mask that differs, is a violation.",
+        "level_note": "Covers the sampled configurations and measurement pairs only.",
+    },
+    "C18": {
+        "level": "fault_enumeration",
+        "rule": "per sampled Prio3 configuration: every single mismatch and sampled pairs of {ctx (all/one aggregator), nonce (all/one), verify key (one), helper ids swapped, "
+                "algorithm id, num_proofs, aggregator count}; per Poplar1 instance (bits 2/16/64): ctx, nonce, key mismatches and swapped shares; positive control per configuration; "
+                "the stated exception (consistent nonce substitution, no joint randomness) must reproduce the honest output shares; distinct = configurations with an accepted control",
+        "assumptions": COMMON_ASSUMPTIONS + ["an acceptance under mismatch is reported only after 3 further acceptances under fresh keys"],
+        "min_counters": {"positive_controls_accepted": 500, "poplar1_positive_controls": 200, "nonce_exception_unchanged_outputs": 50,
+                         "mismatch_rejected_CtxAll": 200, "mismatch_rejected_NonceOne": 200, "mismatch_rejected_KeyOne": 200, "mismatch_rejected_AlgId": 200},
+        "technique": "fault injection of inconsistent ctx/nonce/key/role/instance arguments into verify_* with an acceptance monitor and positive controls",
+        "level_text": "Every mismatch class is executed thousands of times over all types; all must be rejected at some stage, except the stated nonce exception which must reproduce the honest output shares byte for byte.",
+        "level_note": "Sampled configurations; mismatch values are single-bit flips, truncations, extensions and fresh random values.",
     },
 }
 
